@@ -34,6 +34,15 @@ pub fn jobs(ctx: &Ctx) -> Vec<RJob> {
                     4 => Some(crate::render::Colour::Rgb([(k * 37 % 256) as u8, (k * 91 % 256) as u8, (k * 13 % 256) as u8])),
                     _ => None,
                 };
+                // module-shape layers are options too; the frame may not depend on them (every shape occurs, also several)
+                match k % 5 {
+                    1 => spec.layers.push(((k / 5 % 6) as usize, None)),
+                    2 => {
+                        spec.layers.push((2, Some(crate::render::Colour::Rgb([20, 20, 20]))));
+                        spec.layers.push(((k / 7 % 6) as usize, None));
+                    }
+                    _ => {}
+                }
                 out.push(RJob { job, spec });
             }
         }
@@ -92,6 +101,11 @@ pub fn jobs(ctx: &Ctx) -> Vec<RJob> {
                 2 => crate::render::Colour::Rgb([rng.byte(), rng.byte(), 0]),
                 _ => crate::render::Colour::Rgb([rng.byte(), rng.byte(), rng.byte()]),
             });
+        }
+        if rng.chance(1, 3) {
+            for _ in 0..1 + rng.below(2) {
+                spec.layers.push((rng.below(6), if rng.chance(1, 2) { Some(crate::render::random_colour(&mut rng, false)) } else { None }));
+            }
         }
         let which = 1 + rng.below(7); // at least one override
         if which & 1 != 0 {
